@@ -398,7 +398,9 @@ def split_uri(uri):
     else:
         try:
             scheme, netloc, path, query, fragment = parse.urlsplit(uri)
-        except UnicodeError:
+        except ValueError:
+            # UnicodeError is a ValueError; urlsplit also raises plain ValueError
+            # (e.g. "Invalid IPv6 URL" for an unbalanced bracket)
             raise ParsingError("Bad URI")
 
     return (
